@@ -4,9 +4,14 @@ package main
 // and unexpired signed records - additions, changes and deletions.
 
 import (
+	"database/sql"
+	"database/sql/driver"
+	"errors"
+	"io"
 	"os"
 	"sort"
 	"strings"
+	"sync"
 	"testing"
 	"time"
 )
@@ -93,6 +98,96 @@ func TestVerifReplayCacheMirrorsDeletions(t *testing.T) {
 	t.Logf("cache users %v signed %v -> after deleting bob in the primary and a completed sync: users %v signed %v", before, beforeSigned, after, afterSigned)
 	if strings.Join(after, ",") != "alice" || strings.Join(afterSigned, ",") != "alice" {
 		t.Logf("REPLAY-CONFIRMED: a completed synchronisation leaves deleted data in the cache (users %v, signed records %v)", after, afterSigned)
+	} else {
+		t.Logf("REPLAY-NOT-REPRODUCED")
+	}
+}
+
+// ---- a source database that fails in the middle of reading the signed records (database/sql driver) ----------
+
+type verifFaultyDriver struct{}
+type verifFaultyConn struct{}
+type verifFaultyStmt struct{ query string }
+type verifFaultyRows struct {
+	cols   []string
+	rows   [][]driver.Value
+	next   int
+	failAt int // index at which Next reports an I/O error (-1: never)
+}
+
+func (verifFaultyDriver) Open(name string) (driver.Conn, error) { return verifFaultyConn{}, nil }
+func (verifFaultyConn) Prepare(q string) (driver.Stmt, error)   { return verifFaultyStmt{q}, nil }
+func (verifFaultyConn) Close() error                            { return nil }
+func (verifFaultyConn) Begin() (driver.Tx, error)               { return nil, errors.New("read-only") }
+func (verifFaultyStmt) Close() error                            { return nil }
+func (verifFaultyStmt) NumInput() int                           { return -1 }
+func (verifFaultyStmt) Exec(args []driver.Value) (driver.Result, error) {
+	return nil, errors.New("read-only")
+}
+func (s verifFaultyStmt) Query(args []driver.Value) (driver.Rows, error) {
+	if strings.Contains(s.query, "FROM user_profile") {
+		return &verifFaultyRows{cols: []string{"username", "profile_data"}, failAt: -1,
+			rows: [][]driver.Value{{"alice", []byte("profile-of-alice")}, {"bob", []byte("profile-of-bob")}}}, nil
+	}
+	exp := time.Now().Add(time.Hour).Unix()
+	return &verifFaultyRows{cols: []string{"username", "type", "jws_data", "expiration_epoch", "update_epoch"}, failAt: 1,
+		rows: [][]driver.Value{{"alice", int64(1), "jws-alice", exp, exp}, {"bob", int64(1), "jws-bob", exp, exp}}}, nil
+}
+func (r *verifFaultyRows) Columns() []string { return r.cols }
+func (r *verifFaultyRows) Close() error      { return nil }
+func (r *verifFaultyRows) Next(dest []driver.Value) error {
+	if r.next == r.failAt {
+		return errors.New("connection to the primary lost while reading")
+	}
+	if r.next >= len(r.rows) {
+		return io.EOF
+	}
+	copy(dest, r.rows[r.next])
+	r.next++
+	return nil
+}
+
+var verifFaultyOnce sync.Once
+
+// C15: a synchronisation that fails at any step leaves the cache equal to its previous or its new content.
+// History of the model: the source's row iteration over the signed records stops on an error.
+func TestVerifReplaySyncInterruptedWhileReading(t *testing.T) {
+	verifFaultyOnce.Do(func() { sql.Register("verif-faulty-source", verifFaultyDriver{}) })
+	state, passwdFile, err := setupValidRuntimeStateSigner(t)
+	if err != nil {
+		t.Fatal(err)
+	}
+	defer os.Remove(passwdFile.Name())
+	tmpdir, err := os.MkdirTemp("", "verif-storage-")
+	if err != nil {
+		t.Fatal(err)
+	}
+	defer os.RemoveAll(tmpdir)
+	state.Config.Base.DataDirectory = tmpdir
+	if err := initDB(state); err != nil {
+		t.Fatal(err)
+	}
+	defer func() { state.dbDone <- struct{}{} }()
+	// previous content of the cache: alice only
+	if _, err := state.cacheDB.Exec("INSERT INTO user_profile(username, profile_data) VALUES ('alice', x'00')"); err != nil {
+		t.Fatal(err)
+	}
+	exp := time.Now().Add(time.Hour).Unix()
+	if _, err := state.cacheDB.Exec("INSERT INTO expiring_signed_user_data(username, type, jws_data, expiration_epoch, update_epoch) VALUES ('alice', 1, 'old-jws-alice', ?, ?)", exp, exp); err != nil {
+		t.Fatal(err)
+	}
+	source, err := sql.Open("verif-faulty-source", "")
+	if err != nil {
+		t.Fatal(err)
+	}
+	before, beforeSigned := verifCacheUsers(t, state), verifCacheSigned(t, state)
+	err = copyDBIntoSQLite(source, state.cacheDB, "sqlite")
+	after, afterSigned := verifCacheUsers(t, state), verifCacheSigned(t, state)
+	t.Logf("cache before: users %v signed %v; primary: users [alice bob] signed [alice bob], reading the signed records fails after the first row -> copy returned err=%v, cache after: users %v signed %v", before, beforeSigned, err, after, afterSigned)
+	isOld := strings.Join(after, ",") == strings.Join(before, ",") && strings.Join(afterSigned, ",") == strings.Join(beforeSigned, ",")
+	isNew := strings.Join(after, ",") == "alice,bob" && strings.Join(afterSigned, ",") == "alice,bob"
+	if !isOld && !isNew {
+		t.Logf("REPLAY-CONFIRMED: an interrupted synchronisation left a mixture in the cache (users %v, signed records %v)", after, afterSigned)
 	} else {
 		t.Logf("REPLAY-NOT-REPRODUCED")
 	}
